@@ -27,6 +27,8 @@ DOC_KNOBS = dict(frag_pct=35, max_frags=6, repeat_pct=40, skip_pct=25, var_pct=4
 
 def run_one(seed, preset=None, tier="quick", want_case=False):
     r = run_single(ID, seed, preset, want_case, doc_knobs=DOC_KNOBS, schema_knobs={"max_objects": 4})
+    if r.get("early"):
+        return strip_private(r)
     plan, case = r["_plan"], r["_case"]
     p = r["probes"]
     hits = [k for k in ("fragment_spread_twice_same_owner", "fragments_share_subfragment", "var_only_in_fragment", "repeated_key",
